@@ -62,6 +62,34 @@ fn enc_ui(usage_name: &str, ux: &UX, inherited: &[(String, Vec<String>)]) -> Str
     t.join(" ")
 }
 
+/// the extras of a whole tree: one `UX` per level, the level's `flatten_help`, and the same for its subcommands
+#[derive(Clone, Debug, Default)]
+pub struct UXT { pub ux: UX, pub flatten: bool, pub subs: Vec<UXT> }
+
+fn gen_uxt(rng: &mut Rng, cmd: &CmdS, depth: usize) -> UXT {
+    let mut ux = gen_ux(rng, cmd);
+    if depth > 0 && rng.chance(1, 2) { ux.override_usage = None; }
+    UXT { ux, flatten: !cmd.subs.is_empty() && rng.chance(1, if depth == 0 { 3 } else { 6 }), subs: cmd.subs.iter().map(|s| gen_uxt(rng, s, depth + 1)).collect() }
+}
+/// value names are part of the definition (`mut_arg` afterwards would move the arg to the end of the arg list)
+fn set_val_names(cmd: &mut CmdS, t: &UXT) {
+    for (id, names) in &t.ux.val_names { if let Some(a) = cmd.args.iter_mut().find(|a| &a.id == id) { a.val_names = names.clone(); } }
+    for (s, st) in cmd.subs.iter_mut().zip(t.subs.iter()) { set_val_names(s, st); }
+}
+fn apply_tree(c: Command, spec: &CmdS, t: &UXT) -> Command {
+    let mut c = apply(c, &t.ux);
+    if t.flatten { c = c.flatten_help(true); }
+    for (s, st) in spec.subs.iter().zip(t.subs.iter()) { let (s2, st2) = (s.clone(), st.clone()); c = c.mut_subcommand(&s.name, move |sc| apply_tree(sc, &s2, &st2)); }
+    c
+}
+fn enc_tree(spec: &CmdS, t: &UXT, usage_name: &str, inherited: &[(String, Vec<String>)]) -> String {
+    let mut inh: Vec<(String, Vec<String>)> = inherited.to_vec();
+    for (id, ns) in &t.ux.val_names { if spec.args.iter().any(|a| &a.id == id && a.global) { inh.retain(|p| &p.0 != id); inh.push((id.clone(), ns.clone())); } }
+    let mut out = format!("UT {} {} {}", enc_ui(usage_name, &t.ux, inherited), b01(t.flatten), t.subs.len());
+    for (s, st) in spec.subs.iter().zip(t.subs.iter()) { out.push(' '); out.push_str(&enc_tree(s, st, "", &inh)); }
+    out
+}
+
 pub fn run(rep: &mut Report, o: &Opts) {
     let mut rng = Rng::new(o.seed ^ 0x05A6E);
     let cfg = GenCfg { relations: true, defaults: false, subs: true, exotic: true, groups: true, flagsubs: true, settings: true, globals: true };
@@ -72,20 +100,12 @@ pub fn run(rep: &mut Report, o: &Opts) {
         tried += 1;
         let mut cmd = gen_cmd(&mut rng, &cfg, 0, "prog");
         usage_bias(&mut rng, &mut cmd);
-        let ux = gen_ux(&mut rng, &cmd);
-        let sub_ux: Vec<UX> = cmd.subs.iter().map(|s| { let mut u = gen_ux(&mut rng, s); u.override_usage = None; u }).collect();
-        // value names are part of the definition (`mut_arg` afterwards would move the arg to the end of the arg list)
-        for (id, names) in &ux.val_names { if let Some(a) = cmd.args.iter_mut().find(|a| &a.id == id) { a.val_names = names.clone(); } }
-        for (s, su) in cmd.subs.iter_mut().zip(sub_ux.iter()) { for (id, names) in &su.val_names { if let Some(a) = s.args.iter_mut().find(|a| &a.id == id) { a.val_names = names.clone(); } } }
+        let t = gen_uxt(&mut rng, &cmd, 0);
+        set_val_names(&mut cmd, &t);
         let key = format!("usage {}", cmd.encode());
         let _guard = RealCall::new(&key);
         let mut envs = vec![];
-        let r = std::panic::catch_unwind(std::panic::AssertUnwindSafe(|| {
-            let mut c = apply(cmd.build(&mut envs), &ux);
-            for (s, su) in cmd.subs.iter().zip(sub_ux.iter()) { let su = su.clone(); c = c.mut_subcommand(&s.name, |sc| apply(sc, &su)); }
-            c.build();
-            c
-        }));
+        let r = std::panic::catch_unwind(std::panic::AssertUnwindSafe(|| { let mut c = apply_tree(cmd.build(&mut envs), &cmd, &t); c.build(); c }));
         for e in envs { std::env::remove_var(e); }
         let Ok(mut c) = r else { rep.count("usage:invalid_definition(skipped)"); continue; };
         let r = std::panic::catch_unwind(std::panic::AssertUnwindSafe(|| {
@@ -94,36 +114,24 @@ pub fn run(rep: &mut Report, o: &Opts) {
             out
         }));
         let real = match r { Ok(x) => x, Err(_) => { rep.oracle_fail("help-render-panics", &key, "render_usage panicked"); "PANIC".to_string() } };
-        let globals_vn: Vec<(String, Vec<String>)> = ux.val_names.iter().filter(|(id, _)| cmd.args.iter().any(|a| &a.id == id && a.global)).cloned().collect();
-        let mut req = format!("usage {} {} {} {}", cmd.depth(), cmd.encode(), enc_ui("prog", &ux, &[]), cmd.subs.len());
-        for su in &sub_ux { req.push(' '); req.push_str(&enc_ui("", su, &globals_vn)); }
+        let req = format!("usaget {} {} {}", cmd.depth(), cmd.encode(), enc_tree(&cmd, &t, "prog", &[]));
         rep.count("usage:commands");
         if cmd.args.iter().any(|a| a.required) || cmd.groups.iter().any(|g| g.required) { rep.count("usage:with_required_arg_or_group"); }
         if cmd.args.iter().any(|a| a.hide) { rep.count("usage:with_hidden_arg"); }
         if cmd.args.iter().any(|a| a.last) { rep.count("usage:with_last_positional"); }
         if !cmd.subs.is_empty() { rep.count("usage:with_subcommands"); }
+        if t.flatten { rep.count("usage:root_flatten_help"); }
+        if t.subs.iter().any(|s| s.flatten) { rep.count("usage:subcommand_flatten_help"); }
         rep.case(&req, cmd.args.iter().any(|a| a.required) || !cmd.subs.is_empty());
-        readable.push(format!("{}\nux={ux:?} sub_ux={sub_ux:?}", cmd.summary(0)));
+        readable.push(format!("{}\nextras={t:?}", cmd.summary(0)));
         reqs.push(req); reals.push(real);
     }
     if o.driver != "none" {
         let model = driver_batch(&o.driver, &reqs, o.par);
         for (idx, ((req, m), real)) in reqs.iter().zip(model.iter()).zip(reals.iter()).enumerate() {
-            // model: `U <line> R <n> piece… [S <usage_name> <line>]…`; real: `U <line> [S <line>]…`
-            let mt: Vec<&str> = m.split(' ').collect();
-            let mut canon = String::new();
-            let mut i = 0;
-            while i < mt.len() {
-                match mt[i] {
-                    "U" => { canon.push_str(&format!("U {}", mt[i + 1])); i += 2; }
-                    "R" => { if mt[i + 1] == "PANIC" { i += 2; } else { let n: usize = mt[i + 1].parse().unwrap_or(0); i += 2 + n; } }
-                    "S" => { canon.push_str(&format!(" S {}", mt[i + 2])); i += 3; }
-                    _ => { canon = format!("unparsable:{m}"); break; }
-                }
-            }
-            if &canon != real {
-                let show = |s: &str| s.split(' ').map(|t| if t.len() > 2 { String::from_utf8_lossy(&unhex(t)).to_string() } else { t.to_string() }).collect::<Vec<_>>().join(" | ");
-                rep.disagree("usage", req, &format!("{canon} [{}]", show(&canon)), &format!("{real} [{}]", show(real)));
+            if m != real {
+                let show = |s: &str| s.split(' ').map(|t| if t.len() > 2 && t.chars().all(|c| c.is_ascii_hexdigit()) { String::from_utf8_lossy(&unhex(t)).to_string() } else { t.to_string() }).collect::<Vec<_>>().join(" | ");
+                rep.disagree("usage", req, &format!("{m} [{}]", show(m)), &format!("{real} [{}]", show(real)));
                 if rep.notes.len() < 12 { rep.notes.push(readable[idx].clone()); }
             }
         }
